@@ -524,7 +524,10 @@ static std::vector<Item> alphabet(int level) { // 3 = full (with the macro items
 	// scalars, simplest first
 	for (int t = 0; t < NTY; t++) a.push_back(mk(SCALAR, (Ty)t, 1, t == BOOL ? P_MAX : P_DIST));
 	a.push_back(mk(STRING, U8, 5, P_DIST));
-	for (int t = 0; t < NTY; t++) a.push_back(mk(ARRAY, (Ty)t, 3, level >= 1 && t != BOOL ? P_MIX : P_DIST));
+	for (int t = 0; t < NTY; t++) {
+		if (level == 0 && (t == I8 || t == U16 || t == U32 || t == I64)) continue; // reduced: one array type per element size and signedness class
+		a.push_back(mk(ARRAY, (Ty)t, 3, level >= 1 && t != BOOL ? P_MIX : P_DIST));
+	}
 	a.push_back(mk(ARRAY, I32, 0, P_DIST));
 	a.push_back(mk(ARRAY, F64, 1, P_SNAN));
 	if (level >= 1) {
